@@ -16,7 +16,7 @@ Tie to code : the real validators are run in subprocesses — pure Python (AUTOB
               4-tuples with the RFC 3629 grammar), second reference = CPython's strict decoder. The executable Lean models
               (`utf8.validate.py`, `utf8.validate.nvx`) are compared call by call with the implementations they mirror.
 
-Self-test (scratch copy, VERIF_REPO; 2026-09-23) — see the table at the end of this file.
+Self-test (scratch copy, VERIF_REPO; 2026-09-23): 11 mutations detected with concrete replays, 2 harmless rewrites silent — table in SELFTEST at the end of this file.
 """
 import json
 import os
@@ -343,7 +343,7 @@ def run(ctx):
     res.rule = ("(a) every live state (witness prefix) x every byte x 9 characterising continuations as 3-call sequences; "
                 "(b) every byte string of length <=2 (quick: + 3-byte strings under 14 first bytes; thorough: all 3-byte "
                 "strings) and all 4-byte strings under selected 2-byte prefixes, one call on a fresh validator; "
-                "(c) generated strings of 0..1500 (thorough: ..30000) boundary-biased scalars with at most one injected fault "
+                "(c) generated strings of 0..700 (thorough: a few up to 30000) boundary-biased scalars with at most one injected fault "
                 "(overlong/surrogate/>10FFFF/stray continuation/truncated tail), each under whole/bytewise/random chunkings "
                 "with empty chunks, stopping at or continuing after the first reject. Every implementation path (py; nvx "
                 "wrapper default + impl 1..4; internal table/unrolled) is judged by the Lean grammar (utf8.judge / utf8.enum spec); "
@@ -593,7 +593,22 @@ def _run(ctx, res, scratch, internal):
     return res
 
 
-# Self-test outcomes (scratch copy /tmp/c09mut, `VERIF_REPO=/tmp/c09mut ./check C09 --tier quick`): see SELFTEST below.
+# Self-test outcomes: `python3 tools_selftest_c09.py` (scratch copy of /repo/src, VERIF_REPO; quick tier; 2026-09-23).
 SELFTEST = """
-(filled in by the builder; see the final report)
+mutation (single edit in the scratch copy)                      exit  proof_problems                 concrete replay (key: impl chunks)
+py table cell [256+5*16+7] 1->2 (surrogates)                      1   tablePy_eq_rfc fails           py-accepts-ill-formed: py [eda0]; py-offender-total-index-wrong: py [eda000]
+C table cell [256+4*16+1] 1->2 (overlong E0 80)                   1   tableC_eq_rfc fails            nvx-accepts-ill-formed: nvx.wrap [e080]; nvx-offender-total-index-wrong [e08000]
+C macro, state 8 bound 0x8f->0x9f (> U+10FFFF)                    1   unrolledC_eq_rfc fails         nvx-accepts-ill-formed: nvx.impl2 [f490]; [f49000]
+py validate(): reject branch drops `self._index += i`             1   -                              py-offender-total-index-wrong: py [edad]; single-call indices: py [0080]
+py validate(): success tuple elements 0/1 swapped                 1   -                              py-rejects-well-formed-prefix: py [c2]; py-ends-...-after-reject: py [80, -]
+py validate(): reject tuple cur/total swapped                     1   -                              py-offender-total-index-wrong: py [00, 80]; py-total-index-moves-after-reject [eda0, 80]
+nvx wrapper: ends := res >= 0                                     1   -                              nvx-ends-on-code-point-wrong: nvx.wrap [c2]
+C table loop: total_index += i + 1 on reject                      1   -                              nvx-offender-total-index-wrong: nvx.impl1 [80]
+C loops: `vld->state = state` dropped at the end of a call        1   -                              nvx-accepts-ill-formed: nvx.impl1 [c2, 00]; nvx-rejects-well-formed-prefix [c2, 80]
+py UTF8_REJECT = 2                                                1   consts_eq_rfc fails            py-accepts-ill-formed: py [80]; py-rejects-well-formed-prefix: py [c2]
+websocket/__init__: AUTOBAHN_USE_NVX=0 no longer disables NVX     1   -                              selection-ignores-AUTOBAHN_USE_NVX; py-forgets-reject-on-next-call: py [80, 80]
+harmless: py table literals re-based, `state << 4` -> `* 16`      0   -                              (silent; only the known finding F1)
+harmless: C macro branches swapped, `==||==||==` -> range         0   -                              (silent; only the known finding F1)
+(every table/constant mutation also shows the differing cells in the evidence notes, e.g.
+ "utf8validator.py UTF8VALIDATOR_DFA: 32 cell(s) differ from the RFC automaton, e.g. state 5 octet 0xa0: source says 2, RFC says 1")
 """
